@@ -1532,7 +1532,7 @@ def grid():
 def gen_negative_case(rng):
     """negative flows through the mass / volumetric dictionary views (no total setters: a cancelling total makes the
     scaling ill-conditioned, which is not what is being looked at)"""
-    NEG = [-7.3, -2.1, -0.45, 0, 1.15, 3.3]     # no subset cancels exactly (F_vol of a zero net molar flow: fixes_proposed/C11-7)
+    NEG = [-7.3, -2.1, -0.45, 0, 1.15, 3.3]     # some subsets cancel exactly (3.3+3.3+1.15 = 0.45+7.3); F_vol of a zero net molar flow was repaired by 2c4e422 (fixes_proposed/C11-7)
     row = lambda: ','.join(str(rng.choice(NEG)) for _ in range(5))
     if rng.random() < 0.5:
         ops = [f'new1 0 {rng.choice("lg")} {pickT(rng)} {pickP(rng)} {row()}']
